@@ -43,6 +43,16 @@ type c17ExDomain struct {
 	Lines []string    `json:"lines"`
 }
 
+// the document writes, inside the domain Parent, a sub-domain Name containing SubKey=SubVal and a key Name=Val
+type c17Collide struct {
+	Parent   []string `json:"parent"`
+	Name     string   `json:"name"`
+	SubKey   string   `json:"sub_key"`
+	SubVal   string   `json:"sub_val"`
+	Val      string   `json:"val"`
+	KeyFirst bool     `json:"key_first"`
+}
+
 type c17Case struct {
 	Kind     string        `json:"kind"`
 	Inject   string        `json:"inject,omitempty"`
@@ -52,6 +62,7 @@ type c17Case struct {
 	MustOk   bool          `json:"must_ok,omitempty"`
 	Expect   []c17ExDomain `json:"expect,omitempty"`
 	Extra    []B           `json:"extra_paths,omitempty"`
+	Collide  *c17Collide   `json:"collision,omitempty"` // a key and a sub-domain of the same name in one domain
 	Err      bool          `json:"err"`
 	ErrMsg   string        `json:"err_msg,omitempty"`
 	PanicMsg string        `json:"panic,omitempty"`
@@ -353,6 +364,33 @@ func c17RunCase(c *c17Case) []Failure {
 			}
 		}
 	}
+	if cl := c.Collide; cl != nil {
+		pp := domPath(cl.Parent)
+		if len(cl.Parent) == 0 {
+			pp = ""
+		}
+		var sub, val string
+		var doms []string
+		if pm := c17Safe(func() {
+			sub = cf.GetStringWithDef(pp+"/"+cl.Name+"<"+cl.SubKey+">", c17DefStr)
+			val = cf.GetStringWithDef(pp+"<"+cl.Name+">", c17DefStr)
+			doms = cf.GetDomain(pp + "/")
+		}); pm != "" {
+			bad("conf.getter/panic", "a getter panicked on the colliding names: %s", pm)
+		}
+		listed := false
+		for _, d := range doms {
+			listed = listed || d == cl.Name
+		}
+		if sub != cl.SubVal || val != cl.Val || !listed {
+			sig := "conf.name-collision/key-replaces-domain"
+			if cl.KeyFirst {
+				sig = "conf.name-collision/domain-hidden-by-key"
+			}
+			bad(sig, "domain %q contains the sub-domain %q (with %s=%s) and the key %s=%s: GetString(sub-domain key) = %q, GetString(key) = %q, GetDomain lists the sub-domain: %v",
+				pp+"/", cl.Name, cl.SubKey, cl.SubVal, cl.Name, cl.Val, sub, val, listed)
+		}
+	}
 	// the two documented spellings of a path: /A/B/C<data> and /A/B/C/<data>; /A/B/C and /A/B/C/
 	for _, d := range c.Expect {
 		dp := domPath(d.Path)
@@ -486,6 +524,8 @@ type c17DocGen struct {
 	escCR    bool // end of line may be written "&#13;&#10;"
 	entities int  // percentage of characters written as entities
 	lastRaw  byte
+	lastK    string
+	lastV    string
 }
 
 var c17Ints = []string{"0", "1", "-1", "+5", "007", "-0", "2147483647", "2147483648", "-2147483648", "-2147483649", "4294967296",
@@ -493,7 +533,7 @@ var c17Ints = []string{"0", "1", "-1", "+5", "007", "-0", "2147483647", "2147483
 var c17Bools = []string{"1", "0", "t", "f", "T", "F", "true", "false", "True", "False", "TRUE", "FALSE", "tRUE", "yes", "no", "Y", "on", "tr", "truee", "2"}
 var c17Words = []string{"tcp -h 127.0.0.1 -p 19386 -t 60000", "/usr/local/app/tars/app_log/", "a=b", "a = b=c", "==", "x#y", "# not a comment", "a<b", "a&b", "a&amp;b", "1 < 2 > 0", "]]", "]]>", "a]]>b",
 	"\"q\"", "'s'", "a\tb", "a;b", "tars.tarsnode.ServerObj@tcp -h 10.0.0.1 -p 19386", "%d", "\\n", "<tag>", "</a>", "&#65;", "C:\\x", "a/b", "~", "\x7f"}
-var c17Utf8 = []string{"héllo", "日本語", "ключ=значение", "a\u00a0b", "€", "\U0001F600", "\u2028x"}
+var c17Utf8 = []string{"héllo", "日本語", "ключ=значение", "a\u00a0b", "€", "\U0001F600", "\u2028x", "\u00a0v\u00a0", "\u3000x\u3000", "\u0085y", "z\u2003", "\ufeffq", "\ufffd"}
 var c17DomNames = []string{"tars", "application", "server", "client", "a", "b", "A", "a1", "a.b", "a-b", "_x", "x_1.2-3", "Tars", "root", "Obj", "enableset"}
 var c17KeyNames = []string{"k", "k1", "k2", "key", "locator", "node", "log", "K", "app", "server.name", "a b", "x-y", "x>y", "q\"", "p;", "e]", "k!", "t:1", "a&b", "100", "-", ".", "é"}
 
@@ -604,6 +644,9 @@ func (g *c17DocGen) key() string {
 
 func (g *c17DocGen) value() string {
 	var v string
+	if g.utf8 && g.rng.Intn(3) == 0 {
+		return g.pick(c17Utf8)
+	}
 	switch r := g.rng.Intn(20); {
 	case r < 5:
 		v = g.pick(c17Ints)
@@ -649,8 +692,15 @@ func (g *c17DocGen) body(node *c17Node, depth int, nextIsTag bool) {
 				k = g.pick(c17DomNames)
 			}
 			form := g.rng.Intn(12)
+			if g.lastK != "" && g.rng.Intn(8) == 0 { // the same line again
+				k, v, form = g.lastK, g.lastV, 2
+			}
+			g.lastK, g.lastV = k, v
 			var line bytes.Buffer
 			w1, w2 := g.ws(), g.ws()
+			if form == 2 {
+				w1, w2 = "", ""
+			}
 			switch form {
 			case 0: // key only
 				line.WriteString(k)
@@ -815,8 +865,10 @@ var c17ErrInj = []c17Inj{
 // legal oddities that change nothing (comment lines) — in the alphabet
 var c17OkInj = []string{"# a > b ]] \" ' ; &amp; &lt; \x7f ]]&gt; ] ]> ]&#93;>\n", "#\n", "\t # = \n", "#&#60;&#x3c;&#38;\n"}
 
-// legal constructs outside the model's alphabet that change nothing
-var c17OkUnmod = []string{"<!-- k9=v9 -->", "<?pi k9=v9?>", "<![CDATA[# <k9=v9> & ]]>", "<!DOCTYPE x>", "# caf\u00e9 \u65e5\n", "<!-- -->\n"}
+// legal constructs that change nothing: comments, processing instructions, CDATA comment lines (modelled) and
+// directives, the xml declaration (outside the model's alphabet)
+var c17OkMarkup = []string{"<!-- k9=v9 -->", "<?pi k9=v9?>", "<![CDATA[# <k9=v9> & ]]>", "# caf\u00e9 \u65e5\n", "<!-- -->\n", "<!---->", "<!-- - -> \x01 \xff -->", "<?a:b.c-d ? > ?>", "<?x?>", "<![CDATA[]]>", "<![CDATA[#]]]]>", "<![CDATA[\n#\r\n]]>"}
+var c17OkUnmod = []string{"<!DOCTYPE x>", "<?xml version=\"1.0\"?>", "<?xml version='1.0' encoding=\"UTF-8\"?>", "<!ENTITY a \"b\">"}
 
 func c17GenDocs(rng *rand.Rand, n int, out *[]c17Case) {
 	for it := 0; it < n; it++ {
@@ -871,7 +923,11 @@ func c17GenDocs(rng *rand.Rand, n int, out *[]c17Case) {
 		ct = g.cuts[rng.Intn(len(g.cuts))]
 		okf := c17OkInj[rng.Intn(len(c17OkInj))]
 		*out = append(*out, c17Case{Kind: "doc-odd-comment", Inject: okf, Segs: segs1(ins(ct.off, okf)), Sure: true, MustOk: true, Expect: ex, Class: fmt.Sprintf("odd-comment/%q", okf)})
-		if rng.Intn(3) == 0 {
+		if rng.Intn(2) == 0 {
+			okf = c17OkMarkup[rng.Intn(len(c17OkMarkup))]
+			*out = append(*out, c17Case{Kind: "doc-markup", Inject: okf, Segs: segs1(ins(ct.off, okf)), Sure: true, MustOk: true, Expect: ex, Class: fmt.Sprintf("markup/%q", okf)})
+		}
+		if rng.Intn(4) == 0 {
 			okf = c17OkUnmod[rng.Intn(len(c17OkUnmod))]
 			*out = append(*out, c17Case{Kind: "doc-unmodelled", Inject: okf, Segs: segs1(ins(ct.off, okf)), Sure: false, MustOk: true, Expect: ex, Class: fmt.Sprintf("unmodelled/%q", okf)})
 		}
@@ -895,6 +951,11 @@ var c17Utf8Soup = []string{"\x7f", "\x80", "\xbf", "\xc0", "\xc1", "\xc2", "\xdf
 	"\xc2\x80", "\xdf\xbf", "\xe0\xa0\x80", "\xe0\x9f\xbf", "\xed\x9f\xbf", "\xed\xa0\x80", "\xee\x80\x80", "\xef\xbf\xbd", "\xef\xbf\xbe", "\xef\xbf\xbf", "\xef\xbb\xbf", "\xf0\x90\x80\x80", "\xf0\x8f\xbf\xbf", "\xf4\x8f\xbf\xbf", "\xf4\x90\x80\x80",
 	"é", "日", "\U0001F600", "k=", "=", "\n", " ", "#", "a", "<a>", "</a>", "<b/>", "&amp;",
 	"&#127;", "&#128;", "&#xA9;", "&#2047;", "&#2048;", "&#xD7FF;", "&#xD800;", "&#xDFFF;", "&#xE000;", "&#xFFFD;", "&#xFFFE;", "&#xFFFF;", "&#65536;", "&#x10FFFF;", "&#x110000;", "&#1114111;", "&#1114112;"}
+
+// comments, CDATA sections and processing instructions, whole and broken
+var c17MarkupSoup = []string{"<!--", "-->", "--", "-", ">", "<!-", "<![CDATA[", "<![CDAT", "<![cdata[", "]]>", "]]", "]", "<?", "?>", "?", "<?x", "<?a:b", "<?1", "<? ", "<?xm", "<?xmlx", "<?Xml", "a", " ", "\n", "k=v", "#", "<a>", "</a>", "<b/>",
+	"&", "&amp;", "&#65;", "\r", "\r\n", "\x01", "\t", "<", "=", "'", "\""}
+var c17MarkupWild = []string{"<?xml", "<?xml ", "<?xml?>", "<?xml version=\"1.0\"?>", "<?xml version=\"1.1\"?>", "<?xml encoding='latin1'?>", "é", "\xff", "<!DOCTYPE", "<!D", "<!>", "<!ENTITY x \"<\">"}
 var c17TextSoup = []string{"k=v", "k", "=", "#", "\n", "\n", " ", "\t", "\r", "\r\n", ";", ">", "]", "]]", "a", "b", "1", ".", "-", "_", "/", "\"", "'", "x=1", " = ", "v v", "#c", "\x7f", "k = v = w", "  ", "==", ">>", "] ]>", "]>"}
 
 func c17Soup(rng *rand.Rand, words []string, extra []string, extraPct int, maxLen int) []byte {
@@ -914,7 +975,7 @@ func c17Soup(rng *rand.Rand, words []string, extra []string, extraPct int, maxLe
 func c17Balanced(rng *rand.Rand, depth int, sb *bytes.Buffer) {
 	n := rng.Intn(5)
 	names := []string{"a", "b", "k", "a.b-c"}
-	texts := []string{"k=v", "k=w", "a=1", "b", "k", "a", "=x", "#k=z", "\n", "\n", " ", "\t", "a = 2 ", "b==", "&#10;", "&#13;", "&#13;\n", "&#32;", "\r", "k=&#32;v&#9;", "&amp;=&lt;", "x/y=1", "x<y=2"}
+	texts := []string{"k=v", "k=w", "a=1", "b", "k", "a", "=x", "#k=z", "\n", "\n", " ", "\t", "a = 2 ", "b==", "&#10;", "&#13;", "&#13;\n", "&#32;", "\r", "k=&#32;v&#9;", "&amp;=&lt;", "x/y=1", "x<y=2", "k=v&#13; ", "&#13;k=v", " &#13; ", "k=&#13;v&#13;", "k=v&#13;\t", "a&#13;=1"}
 	for i := 0; i < n; i++ {
 		if rng.Intn(3) == 0 && depth < 4 {
 			nm := names[rng.Intn(len(names))]
@@ -1018,6 +1079,12 @@ func c17Gen(tier string, rng *rand.Rand) []c17Case {
 		cs = append(cs, c17Case{Kind: "wild-soup", Segs: segs1(b), Sure: false, Extra: pickPaths(), Class: fmt.Sprintf("wild-soup/len%d", len(b)/8)})
 		b = c17Soup(rng, c17Utf8Soup, nil, 0, 12)
 		cs = append(cs, c17Case{Kind: "utf8-soup", Segs: segs1(b), Sure: true, Extra: pickPaths(), Class: fmt.Sprintf("utf8-soup/len%d", len(b)/8)})
+		b = c17Soup(rng, c17MarkupSoup, nil, 0, 14)
+		cs = append(cs, c17Case{Kind: "markup-soup", Segs: segs1(b), Sure: true, Extra: pickPaths(), Class: fmt.Sprintf("markup-soup/len%d", len(b)/8)})
+		if it%2 == 0 {
+			b = c17Soup(rng, c17MarkupSoup, c17MarkupWild, 20, 12)
+			cs = append(cs, c17Case{Kind: "markup-wild", Segs: segs1(b), Sure: false, Extra: pickPaths(), Class: fmt.Sprintf("markup-wild/len%d", len(b)/8)})
+		}
 		var sb bytes.Buffer
 		c17Balanced(rng, 0, &sb)
 		cs = append(cs, c17Case{Kind: "balanced-soup", Segs: segs1(sb.Bytes()), Sure: true, MustOk: true, Extra: pickPaths(), Class: fmt.Sprintf("balanced-soup/len%d", sb.Len()/8)})
@@ -1026,6 +1093,32 @@ func c17Gen(tier string, rng *rand.Rand) []c17Case {
 			rng.Read(rb)
 			cs = append(cs, c17Case{Kind: "random-bytes", Segs: segs1(rb), Sure: false, Class: "random-bytes"})
 		}
+	}
+	nc := 12
+	if tier == "thorough" {
+		nc = 150
+	}
+	for it := 0; it < nc; it++ {
+		cl := &c17Collide{Name: c17DomNames[rng.Intn(len(c17DomNames))], SubKey: []string{"c", "k", "endpoint"}[rng.Intn(3)], SubVal: []string{"2", "tcp -h 1.2.3.4", "x=y"}[rng.Intn(3)],
+			Val: []string{"1", "", "v w"}[rng.Intn(3)], KeyFirst: rng.Intn(2) == 0}
+		for d := rng.Intn(3); d > 0; d-- {
+			cl.Parent = append(cl.Parent, c17DomNames[rng.Intn(len(c17DomNames))])
+		}
+		var sb bytes.Buffer
+		for _, n := range cl.Parent {
+			sb.WriteString("<" + n + ">\n")
+		}
+		dom := "<" + cl.Name + ">\n  " + cl.SubKey + " = " + cl.SubVal + "\n</" + cl.Name + ">\n"
+		key := cl.Name + "=" + cl.Val + "\n"
+		if cl.KeyFirst {
+			sb.WriteString(key + dom)
+		} else {
+			sb.WriteString(dom + key)
+		}
+		for i := len(cl.Parent) - 1; i >= 0; i-- {
+			sb.WriteString("</" + cl.Parent[i] + ">\n")
+		}
+		cs = append(cs, c17Case{Kind: "collision", Segs: segs1(sb.Bytes()), Sure: true, MustOk: true, Collide: cl, Class: fmt.Sprintf("collision/keyfirst=%v/depth%d", cl.KeyFirst, len(cl.Parent))})
 	}
 	c17GenLong(tier, rng, &cs)
 	return cs
@@ -1051,12 +1144,16 @@ func c17Corpus() []c17Case {
 		{Path: []string{"tars", "application", "client"}, Subs: []string{}, KV: [][2]string{{"modulename", "MMGR.TestServer"}, {"sync-invoke-timeout", "3000"}}, Lines: []string{"sync-invoke-timeout=3000", "modulename=MMGR.TestServer"}}}
 	c6 := mk("corpus", "empty", "", false)
 	c6.Expect = []c17ExDomain{{Path: []string{}, Subs: []string{}, KV: [][2]string{}, Lines: []string{}}}
-	c7 := mk("corpus", "key-then-domain", "<a>b=1\n<b>c=2</b>\n</a><a>b=3</a>", false)
+	c7 := mk("corpus", "key-then-domain", "<a>b=1\n<b>c=2</b>\n</a>", false)
+	c7.Collide = &c17Collide{Parent: []string{"a"}, Name: "b", SubKey: "c", SubVal: "2", Val: "1", KeyFirst: true}
 	c8 := mk("corpus", "domain-then-key", "<a><b>c=2</b>\nb=1\n</a>", false)
+	c8.Collide = &c17Collide{Parent: []string{"a"}, Name: "b", SubKey: "c", SubVal: "2", Val: "1", KeyFirst: false}
+	c9 := mk("corpus", "key-domain-key", "<a>b=1\n<b>c=2</b>\n</a><a>b=3</a>", false)
+	c9.Extra = []B{B("/a<b>"), B("/a/b<c>"), B("/a/b"), B("/a")}
 	for _, c := range []*c17Case{&c7, &c8} {
 		c.Extra = []B{B("/a<b>"), B("/a/b<c>"), B("/a/b"), B("/a")}
 	}
-	return []c17Case{c1, c2, c3, c4, c5, c6, c7, c8}
+	return []c17Case{c1, c2, c3, c4, c5, c6, c7, c8, c9}
 }
 
 func init() {
